@@ -93,8 +93,10 @@ def struct_pack(I, st: StructObj, vals):
         return out
     seq = []
     for tag, v, w in parts:
-        bv = z3.Int2BV(v if tag == "sym" else z3.IntVal(v), 8 * w)
-        bs = [z3.Unit(z3.Extract(8 * i + 7, 8 * i, bv)) for i in range(w)]   # little-endian order
+        e = v if tag == "sym" else z3.IntVal(v)
+        if tag == "sym" and not I.valid(e >= 0):
+            e = z3.If(e >= 0, e, e + 2 ** (8 * w))      # two's complement of signed fields
+        bs = [z3.Unit((e / (256 ** i)) % 256) for i in range(w)]   # little-endian order
         if st.order == ">":
             bs.reverse()
         seq.extend(bs)
@@ -129,10 +131,16 @@ def struct_unpack(I, st: StructObj, data):
             off += w
             continue
         bs = [data.e[off + i] for i in range(w)]
+        for b_ in bs:
+            I.assume(z3.And(b_ >= 0, b_ <= 255))       # elements of a bytes value
         if st.order == "<":
             bs.reverse()
-        bv = z3.Concat(bs) if w > 1 else bs[0]
-        out.append(SV(z3.BV2Int(bv, not ch.isupper()), "int"))
+        val = bs[0]
+        for b_ in bs[1:]:
+            val = val * 256 + b_
+        if not ch.isupper():
+            val = z3.If(val >= 2 ** (8 * w - 1), val - 2 ** (8 * w), val)
+        out.append(SV(val, "int"))
         off += w
     return tuple(out)
 
